@@ -234,3 +234,9 @@ def run(rep, program: Program, tier: str) -> None:
     # a value memoised on a state belongs to the system object that computed it: two systems of one class
     # (different metric / model functions) evaluated on the same state must not read each other's values (shared with C09-R6)
     rep.isolate(c09.rule_r6, rep, program, prop=PROP, rule="R7")
+    # the Riemannian derivative methods are vector-Jacobian products with the matrix gradient members
+    # (grad_log_abs_det, grad_quadratic_form_inv): their symmetry types are claimed here too (shared with C11-R1 / C11-R2)
+    from . import c11
+
+    rep.isolate(c11.rule_r1, rep, program, prop=PROP, rule="R8")
+    rep.isolate(c11.rule_r2, rep, program, prop=PROP, rule="R9")
